@@ -115,7 +115,8 @@ def c04_post(merged, reports, tier):
 
 
 def c06_runs(tier):
-    return [{"engine": "clib", "cfg": c, "tag": c} for c in ["asm", "intrinsics", "portable_only"]]
+    # the 4 GiB lane runs once, on the assembly flavour
+    return [dict({"engine": "clib", "cfg": c, "tag": c}, **({"extra": ["--huge", "1"]} if c == "asm" else {})) for c in ["asm", "intrinsics", "portable_only"]]
 
 
 PLANS = {
